@@ -184,7 +184,8 @@ Delete(s) ==
   /\ \E f \in FieldNames(heap[s].cls) \cup DerivedShapeFields(heap[s].cls) :
         Reject([a |-> "delete", slot |-> s, field |-> f], "AttributeError")   \* shape parameters, given or derived
 
-MetaHows == {"setitem", "update", "update_kw", "update_same", "update_other", "setdefault", "ior", "ior_other", "pop", "del", "clear", "nested_append"}
+MetaHows == {"setitem", "update", "update_kw", "update_same", "update_other", "setdefault", "ior", "ior_other", "pop", "del", "clear", "nested_append",
+             "update2", "update2_kw", "ior2"}       \* ...2: the argument holds two entries, a documented key first, then k
 (* ---- dict mutation entry points of RegionMeta / RegionVisual ---- *)
 DictOf(s, which) == IF which = "meta" THEN heap[s].meta ELSE heap[s].visual
 MetaOp(s, which, how, k, v) ==
@@ -192,7 +193,7 @@ MetaOp(s, which, how, k, v) ==
      \/ "meta_small" \in Acts /\ how \in {"setitem", "pop", "nested_append"} /\ k \in {"label", "color"} /\ KeyOK(which, k) /\ v \in {"v1", "vlist"}
   /\ s \in Live /\ which \in {"meta", "visual"} /\ k \in KeyTokens(which) /\ v \in ValTokens
   /\ how \in MetaHows
-  /\ (k = "width" => how \in {"setitem", "update", "update_kw", "ior"})      \* the alias is documented for setting only
+  /\ (k = "width" => how \in {"setitem", "update", "update_kw", "ior", "setdefault", "update2", "update2_kw", "ior2"})   \* the alias is for setting
   /\ (how = "nested_append" => v = "vlist")
   /\ LET id == DictOf(s, which)
          kv == dicts[id].kv
@@ -203,6 +204,10 @@ MetaOp(s, which, how, k, v) ==
                                                                                               \* RegionMeta/RegionVisual instance holding {k: v}
                IF KeyOK(which, k) THEN set ELSE Reject(a, "KeyError")
           [] how = "ior_other" -> IF KeyOK(which, k) THEN set ELSE Reject(a, "KeyError")
+          [] how \in {"update2", "update2_kw", "ior2"} ->      \* all or nothing: a refused key leaves the documented one unset as well
+               LET gk == IF which = "meta" THEN "label" ELSE "color" IN
+               IF KeyOK(which, k) THEN Step(a, "ok", heap, [dicts EXCEPT ![id].kv = Put(Put(kv, gk, "v2"), ck, v)])
+               ELSE Reject(a, "KeyError")
           [] how = "nested_append" ->             \* m[k].append(x) on a list-valued entry: only this dict's value changes
                IF ck \in DOMAIN kv /\ kv[ck] = "vlist" THEN Step(a, "ok", heap, [dicts EXCEPT ![id].kv = Put(kv, ck, "vlist2")])
                ELSE FALSE
@@ -217,7 +222,7 @@ MetaOp(s, which, how, k, v) ==
           [] how = "clear" -> Step(a, "ok", heap, [dicts EXCEPT ![id].kv = Empty])
 
 (* ---- assigning a whole meta / visual object ---- *)
-DictTokens == {"dict_ok", "dict_empty", "obj_ok", "dict_badkey", "other_kind", "str", "none"}
+DictTokens == {"dict_ok", "dict_empty", "obj_ok", "dict_badkey", "dict_goodbad", "other_kind", "str", "none"}   \* goodbad: a documented key, then an unknown one
 MetaAssign(s, which, t) ==
   /\ "metaassign" \in Acts /\ s \in Live /\ which \in {"meta", "visual"} /\ t \in DictTokens
   /\ LET a == [a |-> "metaassign", slot |-> s, which |-> which, value |-> t]
@@ -226,7 +231,7 @@ MetaAssign(s, which, t) ==
                            Append(dicts, [which |-> which, kv |-> kv]))
      IN CASE t \in {"dict_ok", "obj_ok"} -> fresh(Put(Empty, goodkey, "v1"))
           [] t = "dict_empty" -> fresh(Empty)
-          [] t \in {"dict_badkey", "other_kind"} -> Reject(a, "KeyError")   \* a dict of the other vocabulary is converted, its keys checked
+          [] t \in {"dict_badkey", "dict_goodbad", "other_kind"} -> Reject(a, "KeyError")   \* a dict of the other vocabulary is converted, its keys checked
           [] OTHER -> Reject(a, "ValueError")
 
 (* ---- copies ---- *)
